@@ -71,6 +71,8 @@ def menu(with_blobs, names=None):
     ops = [('load-obj', n) for n in names]
     ops += [('unload', n) for n in names]
     ops += [('unload-by', 'name-shared'), ('unload-by', 'email-shared')]
+    # unload of exactly the object the caller holds (keyring.key() would hand out the private half first)
+    ops += [('unload-obj', n) for n in names if n in ('Dpub', 'Epub', 'A2')]
     names = list(names)
     if with_blobs:
         ops += [('load-bin', 'A'), ('load-asc', 'B'), ('load-file', 'C'), ('load-list', 'A+Dsec'), ('load-bin', 'E'), ('load-asc', 'Dpub')]
@@ -184,6 +186,12 @@ class Prop(object):
                         return None
                     kr.unload(got)
                     self._model_remove(loaded, got)
+                elif kind == 'unload-obj':
+                    cands = [l for l in loaded if l[0] == arg and l[3] is not None]
+                    if not cands:
+                        return None
+                    kr.unload(objs[arg])
+                    self._model_remove(loaded, objs[arg])
                 elif kind == 'unload-by':
                     ident = 'Same Name' if arg == 'name-shared' else 'same@example.org'
                     holders = [l for l in loaded if l[0] in (('A', 'B', 'A2') if arg == 'name-shared' else ('A', 'B', 'C', 'A2'))]
